@@ -3,16 +3,17 @@
 # (1) demo passes on the unchanged tree, (2) patch applies, builds, whole suite passes, (3) demo fails with it,
 # (4) runs the property's check against it. Keeps it as /verif/seeded/<ID>-m<k>/ with meta.json.
 ID=$1; k=$2; CHK=${3:-$ID}
-src=/tmp/seedout/$ID; out=/verif/seeded/$ID-m$k
+case "$k" in [0-9]*) L=m$k;; *) L=$k;; esac
+src=/tmp/seedout/$ID; out=/verif/seeded/$ID-$L
 export GOFLAGS=-mod=mod GOPROXY=off GOSUMDB=off GOTOOLCHAIN=local
 wt=/tmp/confirm-wt-$ID-$k
 git -C /repo worktree add --detach $wt HEAD >/dev/null 2>&1 || exit 2
-demo=$(ls $src/m${k}_demo/*_test.go | head -1)
-pkgdir=$(grep -o 'pkg/[a-z0-9/]*' $src/m${k}_demo/README | head -1); pkgdir=${pkgdir%/}
-runpat=$(grep -o '\-run [A-Za-z0-9_]*' $src/m${k}_demo/README | head -1 | cut -d' ' -f2)
+demo=$(ls $src/${L}_demo/*_test.go | head -1)
+pkgdir=$(grep -o 'pkg/[a-z0-9/]*' $src/${L}_demo/README | head -1); pkgdir=${pkgdir%/}
+runpat=$(grep -o '\-run [A-Za-z0-9_]*' $src/${L}_demo/README | head -1 | cut -d' ' -f2)
 cp $demo $wt/$pkgdir/
 ( cd $wt && go test -vet=off -count=1 -run "$runpat" ./$pkgdir/ > /tmp/confirm-$ID-$k.without 2>&1 ); r_without=$?
-if ! git -C $wt apply $src/m$k.diff; then echo "patch does not apply"; git -C /repo worktree remove --force $wt; exit 2; fi
+if ! git -C $wt apply $src/$L.diff; then echo "patch does not apply"; git -C /repo worktree remove --force $wt; exit 2; fi
 ( cd $wt && go build ./... > /tmp/confirm-$ID-$k.build 2>&1 ); r_build=$?
 ( cd $wt && go test -vet=off -count=1 -run "$runpat" ./$pkgdir/ > /tmp/confirm-$ID-$k.with 2>&1 ); r_with=$?
 rm $wt/$pkgdir/$(basename $demo)
@@ -20,10 +21,10 @@ rm $wt/$pkgdir/$(basename $demo)
 git -C /repo worktree remove --force $wt
 echo "demo without change rc=$r_without (want 0); build rc=$r_build (want 0); demo with change rc=$r_with (want !=0); suite with change rc=$r_suite (want 0)"
 if [ $r_without -ne 0 ] || [ $r_build -ne 0 ] || [ $r_with -eq 0 ] || [ $r_suite -ne 0 ]; then echo "NOT CONFIRMED"; tail -5 /tmp/confirm-$ID-$k.suite; exit 1; fi
-/verif/tools/try_mutant.sh $CHK $src/m$k.diff > /tmp/confirm-$ID-$k.check 2>&1
+/verif/tools/try_mutant.sh $CHK $src/$L.diff > /tmp/confirm-$ID-$k.check 2>&1
 viol=$(grep -m1 '^VIOLATION' /tmp/confirm-$ID-$k.check)
 mkdir -p $out/demo
-cp $src/m$k.diff $out/patch.diff; cp -r $src/m${k}_demo/* $out/demo/; cp $src/m$k.json $out/seeder.json
+cp $src/$L.diff $out/patch.diff; cp -r $src/${L}_demo/* $out/demo/; cp $src/$L.json $out/seeder.json
 python3 - "$ID" "$k" "$CHK" "$viol" "$out" <<'PY'
 import json,sys,re
 ID,k,CHK,viol,out=sys.argv[1:6]
